@@ -7,7 +7,7 @@ from ..harness import scn, gen, obs as O, pyeval, impl
 from . import base_scn, compose
 
 pid = 'C14'
-gen_modules = ['tr_state', 'tr_validators', 'tr_has_patcher', 'tr_contracts', 'tr_decorators', 'tr_pin_contracts', 'tr_pin_introspect', 'tr_rest_validators', 'tr_rest_patcher', 'tr_rest_state', 'tr_rest_contractsconst', 'tr_rest_records']
+gen_modules = ['tr_state', 'tr_validators', 'tr_has_patcher', 'tr_contracts', 'tr_decorators', 'tr_pin_contracts', 'tr_pin_introspect', 'tr_rest_validators', 'tr_rest_patcher', 'tr_rest_state', 'tr_rest_contractsconst', 'tr_rest_records', 'tr_pin_invariant']
 model_targets = ['Sem/ScnObj.v']
 hand_modelled = ['coq/Sem/ObjModel.v: get_contracts / unwrap over the heap of function objects (hand-written; source pinned)',
                  'record.validate / init_all: checked on the implementation only']
@@ -144,6 +144,29 @@ def probe(seed):
     greet2 = deal.has()(greet)
     m2 = [tuple(sorted(r.markers)) for r in di.get_contracts(greet2) if isinstance(r, di.Has)]
     if m1 != [("stdout",)] or m2 != [()]: bad.append(["has record after re-decoration", m1, m2])
+    # a contracted method of an invariant class, reached through the instance (the callable that is actually called)
+    @deal.inv(lambda obj: obj.balance >= 0)
+    class Account:
+        def __init__(self): self.balance = 10
+        @deal.pre(lambda self, amount: amount > 0)
+        @deal.raises(ValueError)
+        @deal.has()
+        def withdraw(self, amount): self.balance -= amount; return self.balance
+    acc = Account()
+    names_i = sorted(type(r).__name__ for r in di.get_contracts(acc.withdraw))
+    names_c = sorted(type(r).__name__ for r in di.get_contracts(Account.withdraw))
+    if names_i != ["Has", "Pre", "Raises"] or names_c != names_i: bad.append(["records of a method of an invariant class", names_i, names_c])
+    # validating through a record is a read of the switch, not a write: disabled stays disabled
+    from deal._state import state as _state
+    deal.disable()
+    try:
+        for r in di.get_contracts(acc.withdraw):
+            if isinstance(r, di.Pre):
+                try: r.validate(acc, 5)
+                except BaseException: pass
+        if _state.debug is not False: bad.append(["record.validate switched contracts on", _state.debug])
+    finally:
+        deal.enable()
     # pre-initialising inherited contracts changes no later outcome (the overriding method has other defaults / an extra parameter)
     for _ in range(20):
         d1, d2 = rnd.randint(5, 15), rnd.randint(50, 150)
